@@ -17,6 +17,7 @@ import (
 	"fmt"
 	"io"
 	"log"
+	"math"
 	"math/bits"
 	"os"
 	"path/filepath"
@@ -548,6 +549,17 @@ func (e *c19Env) older(bt, now time.Time, days int) bool {
 		return c19Day(bt).AddDate(0, 0, days).Before(c19Day(now))
 	}
 	return bt.Add(time.Duration(days) * 24 * time.Hour).Before(now)
+}
+
+// c19DaysPlus1: days+1 without wrapping round. The largest generated retention is 2^31-1 days,
+// which is the largest int of a 32-bit build (unit lib/logx@386): +1 there would be the most
+// negative int and older() would call every backup outdated. Any value above c19MaxDays means
+// "no generated backup is that old", so saturating changes nothing on a 64-bit int.
+func c19DaysPlus1(days int) int {
+	if days == math.MaxInt {
+		return days
+	}
+	return days + 1
 }
 
 var c19Seq int64
@@ -1543,7 +1555,7 @@ func c19Run(c c19Case, root string, r *c19Result) {
 				// (daily rule: a glob meta-character in the directory plus "//" or "/./" makes
 				// filepath.Glob match nothing, so nothing is ever cleaned; reported as an observation).
 				for _, f := range cur {
-					if f.kind == c19Backup && f.lg == lg.idx && f.gz == lg.comp && lg.days > 0 && e.older(f.t, now, lg.days+1) {
+					if f.kind == c19Backup && f.lg == lg.idx && f.gz == lg.comp && lg.days > 0 && e.older(f.t, now, c19DaysPlus1(lg.days)) {
 						r.classes["unclean-path-cleanup-incomplete"] = true
 					}
 				}
@@ -1564,7 +1576,7 @@ func c19Run(c c19Case, root string, r *c19Result) {
 							r.classes["kept-exactly-at-retention-boundary"] = true
 						}
 					}
-					if lg.days > 0 && e.older(f.t, now, lg.days+1) {
+					if lg.days > 0 && e.older(f.t, now, c19DaysPlus1(lg.days)) {
 						if !retFail("%s: backup %s is more than a day older than the %d retention day(s) at %s and survived the clean-up",
 							what, f.name, lg.days, now.Format(time.RFC3339)) {
 							return false
@@ -2410,4 +2422,99 @@ func TestVerif_C19_logx(t *testing.T) {
 func TestVerif_C19_rotate(t *testing.T) {
 	kit.Run(t, "C19", "rotate-history", kit.Opts{Quick: 1000, Thorough: 32000}, c19Gen,
 		func(c c19Case) kit.Verdict { return c19Interp(t, c) })
+}
+
+// ---- size-threshold: the size rule's limit for every magnitude of the constructor's MB argument ----
+//
+// The histories above configure the byte limit through the in-package field (a 1 MB file per
+// rotation would make them far too slow), so the constructor's own arithmetic - megabytes, an
+// int, to bytes, an int64 - is judged here, as a pure function: "under the size rule a file
+// grows beyond the configured maximum by at most one record" means the writer must rotate
+// exactly when the record would take the file beyond Mb * 2^20 bytes, which is what
+// RotateLogger.write asks the rule (ShallRotate(currentSize + len(record))). Magnitudes are
+// scale-free: 1..8 MB, the values around 2^11 and 2^12 MB (whose byte counts are 2^31 and 2^32:
+// they do not fit a 32-bit int), 2^16 MB and the largest int of the platform (on a 64-bit int
+// also 2^31, 2^32+1 and 2^43-1 MB, the largest whose byte count fits an int64; on a 32-bit int
+// - unit lib/logx@386 - those are replaced by MaxInt32 so that the case stays a legal call).
+// Mb <= 0 is outside the statement (the constructor documents no meaning): panics only.
+type c19ThCase struct {
+	Mb   int64 `json:"mb"`   // constructor's maxSize argument (megabytes)
+	Size int64 `json:"size"` // currentSize + len(record) handed to ShallRotate
+	Days int   `json:"days,omitempty"`
+	MaxB int   `json:"maxb,omitempty"`
+}
+
+func c19GenThreshold(rt *rapid.T) c19ThCase {
+	var c c19ThCase
+	switch rapid.IntRange(0, 9).Draw(rt, "mbKind") {
+	case 0, 1, 2:
+		c.Mb = rapid.Int64Range(1, 8).Draw(rt, "mbSmall")
+	case 3:
+		c.Mb = rapid.SampledFrom([]int64{0, -1, math.MinInt32}).Draw(rt, "mbNonPos")
+	default:
+		c.Mb = rapid.SampledFrom([]int64{2047, 2048, 2049, 4095, 4096, 4097, 65536, 1<<31 - 1,
+			1 << 31, 1<<31 + 1, 1<<32 + 1, 1<<43 - 1}).Draw(rt, "mbBig")
+	}
+	if c.Mb > math.MaxInt {
+		c.Mb = math.MaxInt // 32-bit int: the platform's largest legal argument instead
+	}
+	limit := c.Mb * megaBytes
+	switch rapid.IntRange(0, 5).Draw(rt, "sizeKind") {
+	case 0, 1, 2: // around the configured limit
+		c.Size = limit + rapid.Int64Range(-2, 2).Draw(rt, "dLimit")
+	case 3: // around the limit taken modulo 2^32 (what a 32-bit product would leave), and around 1 MB
+		c.Size = rapid.SampledFrom([]int64{int64(uint32(limit)), int64(int32(uint32(limit))), megaBytes}).Draw(rt, "wrapped") +
+			rapid.Int64Range(-1, 1).Draw(rt, "dWrap")
+	case 4:
+		c.Size = rapid.Int64Range(0, 4*megaBytes).Draw(rt, "sizeSmall")
+	default:
+		c.Size = rapid.SampledFrom([]int64{0, 1, 1<<31 - 1, 1 << 31, 1<<32 - 1, 1 << 32, 1 << 40, math.MaxInt64}).Draw(rt, "sizeBig")
+	}
+	if c.Size < 0 {
+		c.Size = 0 // a file size
+	}
+	c.Days = rapid.SampledFrom([]int{0, 1, 30}).Draw(rt, "days")
+	c.MaxB = rapid.SampledFrom([]int{0, 1, 3}).Draw(rt, "maxb")
+	return c
+}
+
+func c19ThresholdInterp(c c19ThCase) (v kit.Verdict) {
+	if c.Mb > math.MaxInt || c.Mb < math.MinInt || c.Mb > 1<<43-1 || c.Size < 0 {
+		v.Excluded = true // not a legal int argument on this platform / byte count beyond int64
+		return v
+	}
+	defer func() {
+		if r := recover(); r != nil {
+			v.Fail = fmt.Sprintf("NewSizeLimitRotateRule(maxSize %d MB) / ShallRotate(%d) panicked: %v", c.Mb, c.Size, r)
+		}
+	}()
+	rule := NewSizeLimitRotateRule(filepath.Join(kit.WorkDir(), "c19-threshold.log"), "-", c.Days, int(c.Mb), c.MaxB, false)
+	got := rule.ShallRotate(c.Size)
+	if c.Mb <= 0 {
+		v.Classes = append(v.Classes, "mb-nonpositive-unspecified")
+		return v
+	}
+	limit := c.Mb * megaBytes
+	switch {
+	case c.Mb >= 2048:
+		v.Classes = append(v.Classes, fmt.Sprintf("limit-bytes~2^%d", bits.Len64(uint64(limit))-1))
+	default:
+		v.Classes = append(v.Classes, "limit-bytes<2^31")
+	}
+	if d := c.Size - limit; d >= -2 && d <= 2 {
+		v.Classes = append(v.Classes, fmt.Sprintf("size=limit%+d", d))
+		v.NonTrivial = true
+	}
+	if c.Mb >= 2048 {
+		v.NonTrivial = true
+	}
+	if want := c.Size > limit; got != want {
+		v.Fail = fmt.Sprintf("size rule built with maxSize %d MB (= %d bytes): ShallRotate(%d) = %v, want %v (a file must be rotated exactly when the record would take it beyond the configured maximum)",
+			c.Mb, limit, c.Size, got, want)
+	}
+	return v
+}
+
+func TestVerif_C19_threshold(t *testing.T) {
+	kit.Run(t, "C19", "size-threshold", kit.Opts{Quick: 4000, Thorough: 128000}, c19GenThreshold, c19ThresholdInterp)
 }
